@@ -74,6 +74,10 @@ impl BitPage {
     #[verifier::external_body]
     pub fn clear(&mut self) ensures final(self)@ == Set::<u32>::empty() { unimplemented!() }
     #[verifier::external_body]
+    pub fn remove_range(&mut self, first: u32, last: u32)
+        ensures forall|y: u32| final(self)@.contains(y) == (old(self)@.contains(y) && !((first & 511) <= y <= (last & 511)))
+    { unimplemented!() }
+    #[verifier::external_body]
     pub fn insert_range(&mut self, first: u32, last: u32)
         ensures forall|y: u32| final(self)@.contains(y) == (old(self)@.contains(y) || ((first & 511) <= y <= (last & 511)))
     { unimplemented!() }
@@ -465,6 +469,166 @@ it:
             }
         }
 //@end
+
+//@extract source=bs container="impl BitSet" fn=major_end ret=r
+//@spec
+        requires major < 0x80_0000
+        ensures r == (major << 9) + 511
+//@at body-start
+        proof { assert((major << 9) <= 0xffff_fe00u32) by(bit_vector) requires major < 0x80_0000u32; }
+//@end
+
+    // ASSUMED (iterator sum outside Verus' subset): the cached length is recomputed as the sum of the page lengths
+    #[verifier::external_body]
+    fn recompute_length(&mut self)
+        ensures final(self).page_map@ == old(self).page_map@, final(self).pages@ == old(self).pages@, final(self).length == sum_len(final(self).pages@)
+    { unimplemented!() }
+
+//@extract source=bs container="impl BitSet" fn=remove_range
+//@rewrite "RangeInclusive<u32>" => "core::ops::RangeInclusive<u32>"
+//@spec
+        requires old(self).wf()
+        ensures final(self).wf(), forall|x: u32| final(self).mem(x) == (old(self).mem(x) && !(range@.start <= x <= range@.end))
+//@closure nth=0
+-> (o: Ordering) ensures o == probe.major_value.cmp_spec(&start_major)
+//@at before "loop {"
+        let ghost pm0 = self.page_map@;
+        let ghost pg0 = self.pages@;
+        let ghost k0 = info_index as int;
+        let ghost mut hi = info_index as int;
+        proof {
+            lemma_len_bound(self.page_map@, self.pages@);
+            assert((start >> 9) <= (end >> 9)) by(bit_vector) requires start <= end;
+            // everything before the search position lies below the range
+            assert forall|j: int| 0 <= j < info_index implies (#[trigger] pm0[j]).major_value < start_major by {
+                if info_index < pm0.len() && pm0[info_index as int].major_value == start_major { assert(pm0[j].major_value < pm0[info_index as int].major_value); }
+            }
+        }
+//@at loop "loop"
+            invariant_except_break
+                map_wf_s(pm0, pg0), self.page_map@ == pm0, pm0.len() <= 0x80_0000, self.length == old(self).length,
+                start <= end, start_major == start >> 9, end_major == end >> 9, start_major <= end_major, k0 <= info_index,
+                forall|j: int| 0 <= j < k0 ==> (#[trigger] pm0[j]).major_value < start_major,
+                info_index < pm0.len() ==> pm0[info_index as int].major_value >= start_major,
+                info_index <= pm0.len() ==> cut_state(pm0, pg0, self.pages@, k0, info_index as int, start, end),
+                info_index <= pm0.len(),
+            ensures
+                self.page_map@ == pm0, self.length == old(self).length,
+                cut_state(pm0, pg0, self.pages@, k0, hi, start, end),
+                forall|j: int| hi <= j < pm0.len() ==> (#[trigger] pm0[j]).major_value > end_major,
+            decreases pm0.len() - info_index
+//@at before "break;" nth=0
+                proof { hi = info_index as int; }
+//@at before "let Some(page)"
+            let ghost pg = self.pages@;
+            let ghost major = info.major_value;
+            let ghost slot = info.index as int;
+//@at before "break;" nth=2
+                proof {
+                    hi = info_index as int;
+                    assert(pg.update(slot, pg[slot]) =~= pg);
+                    assert forall|j: int| hi <= j < pm0.len() implies (#[trigger] pm0[j]).major_value > end_major by {
+                        if j > hi { assert(pm0[hi].major_value < pm0[j].major_value); }
+                    }
+                }
+//@at after "page.remove_range(start, Self::major_end(start_major).min(end));"
+                proof {
+                    assert(pm0[info_index as int].index as int == slot);
+                    assert(pg[slot] == pg0[slot]);
+                    assert(start >= (major << 9)) by(bit_vector) requires (start >> 9) == major;
+                    assert((major << 9) <= 0xffff_fe00u32) by(bit_vector) requires major < 0x80_0000u32;
+                    assert forall|x: u32| (x >> 9) == major implies (#[trigger] page@.contains(x & 511)) == (pg0[slot]@.contains(x & 511) && !(start <= x <= end)) by {
+                        lemma_range_bits(start, end, major, x);
+                    }
+                    lemma_cut_step(pm0, pg0, pg, k0, info_index as int, start, end, *page);
+                }
+//@at after "page.remove_range(Self::major_start(end_major), end);"
+                proof {
+                    assert(pm0[info_index as int].index as int == slot);
+                    assert(pg[slot] == pg0[slot]);
+                    assert(start < (major << 9)) by(bit_vector) requires (start >> 9) < major, major < 0x80_0000u32;
+                    assert((major << 9) <= 0xffff_fe00u32) by(bit_vector) requires major < 0x80_0000u32;
+                    assert(end <= (major << 9) + 511) by(bit_vector) requires (end >> 9) == major, major < 0x80_0000u32;
+                    assert forall|x: u32| (x >> 9) == major implies (#[trigger] page@.contains(x & 511)) == (pg0[slot]@.contains(x & 511) && !(start <= x <= end)) by {
+                        lemma_range_bits(start, end, major, x);
+                    }
+                    lemma_cut_step(pm0, pg0, pg, k0, info_index as int, start, end, *page);
+                    hi = info_index + 1;
+                    assert forall|j: int| hi <= j < pm0.len() implies (#[trigger] pm0[j]).major_value > end_major by {
+                        assert(pm0[info_index as int].major_value < pm0[j].major_value);
+                    }
+                }
+//@at after "page.clear();"
+                proof {
+                    assert(pm0[info_index as int].index as int == slot);
+                    assert forall|x: u32| (x >> 9) == major implies (#[trigger] page@.contains(x & 511)) == (pg0[slot]@.contains(x & 511) && !(start <= x <= end)) by {
+                        lemma_rng_inner(start, end, x);
+                    }
+                    lemma_cut_step(pm0, pg0, pg, k0, info_index as int, start, end, *page);
+                }
+//@at loop-after "loop"
+        proof { lemma_cut_members(pm0, pg0, self.pages@, k0, hi, start, end); }
+//@end
+}
+
+proof fn lemma_rng_major(start: u32, end: u32, x: u32)
+    requires start <= x <= end
+    ensures (start >> 9) <= (x >> 9) <= (end >> 9)
+{ assert((start >> 9) <= (x >> 9) && (x >> 9) <= (end >> 9)) by(bit_vector) requires start <= x, x <= end; }
+proof fn lemma_rng_inner(start: u32, end: u32, x: u32)
+    requires (start >> 9) < (x >> 9) < (end >> 9)
+    ensures start <= x <= end
+{ assert(start <= x && x <= end) by(bit_vector) requires (start >> 9) < (x >> 9), (x >> 9) < (end >> 9); }
+
+// ---- remove_range: what has happened to the page of map entry i
+spec fn page_cut(pm0: Seq<PageInfo>, pg0: Seq<BitPage>, pg: Seq<BitPage>, i: int, start: u32, end: u32) -> bool {
+    forall|x: u32| (x >> 9) == pm0[i].major_value ==>
+        (#[trigger] pg[pm0[i].index as int]@.contains(x & 511)) == (pg0[pm0[i].index as int]@.contains(x & 511) && !(start <= x <= end))
+}
+spec fn cut_state(pm0: Seq<PageInfo>, pg0: Seq<BitPage>, pg: Seq<BitPage>, k0: int, hi: int, start: u32, end: u32) -> bool {
+    &&& pg.len() == pg0.len() && 0 <= k0 <= hi <= pm0.len()
+    &&& forall|i: int| k0 <= i < hi ==> #[trigger] page_cut(pm0, pg0, pg, i, start, end)
+    &&& forall|i: int| 0 <= i < pm0.len() && !(k0 <= i < hi) ==> pg[(#[trigger] pm0[i]).index as int] == pg0[pm0[i].index as int]
+}
+proof fn lemma_cut_members(pm0: Seq<PageInfo>, pg0: Seq<BitPage>, pg: Seq<BitPage>, k0: int, hi: int, start: u32, end: u32)
+    requires map_wf_s(pm0, pg0), cut_state(pm0, pg0, pg, k0, hi, start, end), start <= end,
+        forall|i: int| 0 <= i < k0 ==> (#[trigger] pm0[i]).major_value < (start >> 9),
+        forall|i: int| hi <= i < pm0.len() ==> (#[trigger] pm0[i]).major_value > (end >> 9),
+    ensures forall|x: u32| #[trigger] mem_s(pm0, pg, x) == (mem_s(pm0, pg0, x) && !(start <= x <= end))
+{
+    assert forall|x: u32| #[trigger] mem_s(pm0, pg, x) == (mem_s(pm0, pg0, x) && !(start <= x <= end)) by {
+        if mem_s(pm0, pg, x) || mem_s(pm0, pg0, x) {
+            let i = if mem_s(pm0, pg, x) { choose|i: int| mem_at_s(pm0, pg, i, x) } else { choose|i: int| mem_at_s(pm0, pg0, i, x) };
+            // i is the only entry for this major value
+            assert forall|j: int| mem_at_s(pm0, pg, j, x) || mem_at_s(pm0, pg0, j, x) implies j == i by {
+                if j < i { assert(pm0[j].major_value < pm0[i].major_value); }
+                if i < j { assert(pm0[i].major_value < pm0[j].major_value); }
+            }
+            if k0 <= i < hi {
+                assert(page_cut(pm0, pg0, pg, i, start, end));
+                if pg[pm0[i].index as int]@.contains(x & 511) { assert(mem_at_s(pm0, pg, i, x)); }
+                if pg0[pm0[i].index as int]@.contains(x & 511) { assert(mem_at_s(pm0, pg0, i, x)); }
+            } else {
+                assert(pg[pm0[i].index as int] == pg0[pm0[i].index as int]);
+                if start <= x <= end { lemma_rng_major(start, end, x); }
+                if pg0[pm0[i].index as int]@.contains(x & 511) { assert(mem_at_s(pm0, pg0, i, x)); assert(mem_at_s(pm0, pg, i, x)); }
+            }
+        }
+    }
+}
+// one more page has been cut (np replaces the page of entry i)
+proof fn lemma_cut_step(pm0: Seq<PageInfo>, pg0: Seq<BitPage>, pg: Seq<BitPage>, k0: int, i: int, start: u32, end: u32, np: BitPage)
+    requires map_wf_s(pm0, pg0), cut_state(pm0, pg0, pg, k0, i, start, end), k0 <= i < pm0.len(),
+        forall|x: u32| (x >> 9) == pm0[i].major_value ==> (#[trigger] np@.contains(x & 511)) == (pg0[pm0[i].index as int]@.contains(x & 511) && !(start <= x <= end)),
+    ensures cut_state(pm0, pg0, pg.update(pm0[i].index as int, np), k0, i + 1, start, end)
+{
+    let pg2 = pg.update(pm0[i].index as int, np);
+    assert forall|j: int| k0 <= j < i + 1 implies #[trigger] page_cut(pm0, pg0, pg2, j, start, end) by {
+        if j < i { assert(pm0[j].index != pm0[i].index); assert(page_cut(pm0, pg0, pg, j, start, end)); }
+    }
+    assert forall|j: int| 0 <= j < pm0.len() && !(k0 <= j < i + 1) implies pg2[(#[trigger] pm0[j]).index as int] == pg0[pm0[j].index as int] by {
+        if j < i { assert(pm0[j].index != pm0[i].index); } else { assert(pm0[i].index != pm0[j].index); }
+    }
 }
 
 // within the page of `major`, the members of start..=end are the bit positions page_start..=page_end (mod 512)
